@@ -86,7 +86,9 @@ def tasks_c03(tier, seed):
         for s in scens:
             big = s in ("S1", "S2", "Q6", "S8r", "QEshutdownBusy")
             ts += explore(s, "w1-in4-default-direct", 2, shards=4 if big else 1, timeout="100s")
-            if s in ("S8", "S8r", "QEshutdownBusy", "S4q"):
+            if s == "QEshutdownBusy":
+                continue  # two workers: thorough tier only (1.5 million schedules at bound 1)
+            if s in ("S8", "S8r", "S4q"):
                 ts += explore(s, CFG_DEFAULT, 1, shards=2, timeout="100s")
             elif s != "Q6":
                 ts += explore(s, CFG_DEFAULT, 1 if big else 2, shards=2 if big else 1, timeout="100s")
@@ -136,7 +138,7 @@ def tasks_c18(tier, seed):
 
 
 QE_SCENS = ["QE0", "QE1-model", "QE1-events", "QE1-error", "QE1-notfound", "QE1-panic", "QE1-nothing", "QE1-timeout", "QE1-twice",
-            "QE2", "QEempty", "QEnopayload", "QEfail", "QEconc", "QEchain", "QEshutdown", "QEshutdownBusy"]
+            "QE2", "QEempty", "QEnopayload", "QEfail", "QEconc", "QEconcNil", "QEchain", "QEshutdown", "QEshutdownBusy"]
 
 
 def tasks_c15(tier, seed):
@@ -218,7 +220,9 @@ def tasks_c16(tier, seed):
     for s in ["QE1-model", "QE1-panic", "QE2", "QEfail", "QEconc", "QEchain", "QEshutdown", "QEshutdownBusy"]:
         ts += explore(s, w1, b, race=True, timeout=to)
     # two workers: a query callback running beside a callback of the same group would race on the group's scratch word
-    ts += explore("QEconc", CFG_DEFAULT, b, race=True, shards=6, timeout=to)
+    ts += explore("QEconcNil", CFG_DEFAULT, b, race=True, shards=1 if tier == "quick" else 8, timeout=to)
+    if tier != "quick":
+        ts += explore("QEconc", CFG_DEFAULT, 1, race=True, shards=16, timeout=to)
     ts += explore("S8", w1, b, race=True, timeout=to) + explore("S4q", w1, b, race=True, timeout=to)
     ts += STORE_RACE_TASKS(tier)
     return ts
